@@ -99,7 +99,7 @@ class OptSim(Sim):
               "illegal_hyperparams_refused", "param_without_grad_skipped", "backward_fault_then_recovery",
               "variant_pruned", "momentum_plain", "adam", "adamw", "sgd", "optimizer_recreated", "requires_grad_toggled_mid_run",
               "tied_parameters_share_storage", "tied_parameters_both_updated",
-              "interrupted_backward_retried_on_same_graph", "accumulated_gradient_checked"]
+              "interrupted_backward_retried_on_same_graph", "accumulated_gradient_checked", "numpy_scalar_hyperparameters"]
     RULE = ("one run = parameters + 1-2 optimizers with swarm hyper-parameters and a seeded interleaving of backward/zero_grad/step events; "
             "distinct = optimizer kinds x non-default hyper-parameter set x event-kind sequence; non-trivial = at least two steps compared")
     ASSUMPTIONS = ["the gradient fed to the model at each step is the one the system accumulated (C04 decides accumulation)",
@@ -134,6 +134,12 @@ class OptSim(Sim):
 
     # ------------------------------------------------------------------ generation
     def _gen_hp(self, rng, kind):
+        hp = self._gen_hp0(rng, kind)
+        if rng.random() < 0.2:
+            hp["np_scalars"] = rng.choice(["f8", "f8", "f4"])
+        return hp
+
+    def _gen_hp0(self, rng, kind):
         lr = round(10 ** rng.uniform(-3, -0.5), 6)
         if kind == "SGD":
             mu = rng.choice([0, 0, 0.5, 0.9])
@@ -283,8 +289,22 @@ class OptSim(Sim):
             setattr(m, f"p{n}", st.P[i])
         st.module, st.module_ids = m, ids
 
+    @staticmethod
+    def _effective(hp):
+        """the hyper-parameter values the optimizer actually received (a float32 scalar is not the decimal number it was made from)"""
+        if hp.get("np_scalars") != "f4":
+            return hp
+        r = lambda v: float(np.float32(v))
+        return {k: ([r(x) for x in v] if isinstance(v, list) else (r(v) if isinstance(v, (int, float)) and not isinstance(v, bool) else v)) for k, v in hp.items()}
+
     def _make(self, st, kind, params, hp):
         cls = getattr(st.SG.optim, kind)
+        if hp.get("np_scalars"):
+            # hyper-parameters that come out of np.logspace / a config array are NumPy scalars, not Python floats
+            st.probes["numpy_scalar_hyperparameters"] += 1
+            w = np.float64 if hp["np_scalars"] == "f8" else np.float32
+            hp = {k: ([w(x) for x in v] if isinstance(v, list) else (w(v) if isinstance(v, float) or (isinstance(v, int) and not isinstance(v, bool) and k != "nesterov") else v))
+                  for k, v in hp.items() if k != "np_scalars"}
         if kind == "SGD":
             return cls(params, lr=hp["lr"], momentum=hp["momentum"], dampening=hp["dampening"], weight_decay=hp["weight_decay"],
                        nesterov=hp["nesterov"], maximize=hp["maximize"])
@@ -312,6 +332,7 @@ class OptSim(Sim):
             return
         hp = ev["hp"]
         obj = st.must("C08.constructor_raises", f"{ev['kind']}({hp})", self._make, st, ev["kind"], [st.P[i] for i in ids], hp)
+        hp = self._effective(hp)
         st.opts[ev["oid"]] = {"obj": obj, "ids": ids, "model": OptModel(ev["kind"], hp, len(ids)), "kind": ev["kind"], "hp": hp, "steps": 0}
         st.probes[ev["kind"].lower()] += 1
         if ev["kind"] == "SGD":
@@ -566,8 +587,10 @@ class OptSim(Sim):
                 if len([j for j in self._group(st, i) if j in moving]) >= 2:
                     st.probes["tied_parameters_both_updated"] += 1
                 obs = np.asarray(p.data, dtype=np.float64)
-                eps = 1.2e-7 if p.data.dtype == np.float32 else 2.3e-16
-                k = 48 if p.data.dtype == np.float32 else 4096
+                # (float32 hyper-parameter scalars make the scalar sub-expressions of the rule single precision: the caller's choice)
+                low = p.data.dtype == np.float32 or o["hp"].get("np_scalars") == "f4"
+                eps = 1.2e-7 if low else 2.3e-16
+                k = 48 if low else 4096
                 scale = np.abs(pre[i]) + np.abs(exp - pre[i]) + o["hp"]["lr"]
                 err = np.abs(obs - exp)
                 if not np.all(err <= k * eps * scale):
